@@ -27,7 +27,7 @@ ASSUMPTIONS = [
 ]
 KINDS = ["inst", "operand", "operand", "genreg", "genreg", "indreg", "stackreg", "basereg"]
 MUTATORS = ["none", "none", "none", "prefix-ext", "prefix-ext", "other-member", "wrong-width", "non-member", "swap-names", "last-operand", "unrelated-op", "def-empty", "def-non-member", "def-wrong-width", "case-variant"]
-FLOORS = {"kind=inst": 0.08, "kind=operand": 0.12, "kind=regfam": 0.16, "mut=prefix-ext": 0.06, "expect=found": 0.25, "near-miss": 0.3, "kind=deref-field": 0.08, "deref-keys=permuted": 0.04}
+FLOORS = {"kind=inst": 0.08, "kind=operand": 0.12, "kind=regfam": 0.16, "mut=prefix-ext": 0.06, "expect=found": 0.25, "near-miss": 0.3, "kind=deref-field": 0.06, "kind=deref-operator-capture": 0.04, "deref-keys=permuted": 0.04}
 
 # operands with prefix / extension relatives (att, norm)
 RELATED = [
@@ -539,8 +539,62 @@ def _dc_spans(case):
     return spans
 
 
+DO_REGS = ["%rbx", "%r8", "%r12", "%rax", "%rcx", "%rsi", "%r9"]
+DO_EXT = {"%r8": "%r8d", "%r12": "%r12d", "%r9": "%r9d"}
+
+
+@st.composite
+def deref_operator_capture_cases(draw):
+    """A plain capture bound on the spine by a whole operand, and a LATER occurrence of it inside a logical operator inside a
+    $deref field written in list form (main_reg: [ {$or: ["&r", "%rbp"]} ], the shape of tests/yamls/logic_operators_inside_deref.yaml):
+    the memory operand is accepted exactly when its base is the bound text (or, for $or, the literal alternative)."""
+    pushed = draw(st.sampled_from(DO_REGS))
+    lit = draw(st.sampled_from([r for r in ["%rbp", "%rdi", "%r10"] if r != pushed]))
+    op = draw(st.sampled_from(["$or", "$or", "$or", "$and", "$and_any_order"]))
+    how = draw(st.sampled_from(["bound", "bound", "literal", "other", "extension"]))
+    base = {"bound": pushed, "literal": lit, "other": draw(st.sampled_from([r for r in DO_REGS if r not in (pushed,)])), "extension": DO_EXT.get(pushed, "%rdx")}[how]
+    off = draw(st.sampled_from(["0x8", "0x10", None, "-0x8"]))
+    off_shown = off if draw(st.integers(0, 4)) else draw(st.sampled_from([o for o in ["0x8", "0x18", None] if o != off]))
+    lit_spelled = lit if draw(st.booleans()) else lit[1:]
+    alts = ["&r", lit_spelled] if op == "$or" else ["&r"]
+    if op == "$or" and draw(st.booleans()):
+        alts = [lit_spelled, "&r"]
+    if op == "$or" and draw(st.integers(0, 2)) == 0:
+        alts.insert(draw(st.integers(0, len(alts))), "%r15")
+    fields = {"main_reg": [{op: alts}]}
+    if off is not None:
+        fields["constant_offset"] = off if draw(st.booleans()) or off.startswith("-") else off[2:]
+        if draw(st.booleans()):
+            fields = {"constant_offset": fields["constant_offset"], "main_reg": fields["main_reg"]}
+    m0 = draw(st.sampled_from(["push", "pop", "inc", "neg"]))
+    m1 = draw(st.sampled_from(DC_MN))
+    other = draw(st.sampled_from(["%rax", "%r10", "%edx"]))
+    pos = draw(st.integers(0, 1))
+    d = {"$deref": fields}
+    pattern = [{m0: ["&r"]}, {m1: [d, other] if pos == 0 else [other, d]}]
+    mem_att = f"{off_shown or ''}({base})"
+    mem_norm = f"[{base}+{off_shown}]" if off_shown else f"[{base}]"  # stream normal form keeps "+-0x8" for a negative offset
+    third = None
+    if draw(st.integers(0, 2)) == 0:
+        third = pushed if draw(st.booleans()) else draw(st.sampled_from(DO_REGS))
+        pattern.append({"xchg": ["&r"]})
+    L = []
+    a = 0x401000
+    for _ in range(draw(st.integers(0, 2))):
+        L.append([format(a, "x"), "nop", [], []]); a += 1
+    L.append([format(a, "x"), m0, [pushed], [pushed]]); a += 2
+    L.append([format(a, "x"), m1, [mem_att, other] if pos == 0 else [other, mem_att], [mem_norm, other] if pos == 0 else [other, mem_norm]]); a += 4
+    if third is not None:
+        L.append([format(a, "x"), "xchg", [third, "%r11"], [third, "%r11"]]); a += 3
+    L.append([format(a, "x"), "ret", [], []])
+    ok = (base == pushed or (op == "$or" and base == lit)) and off_shown == off and (third is None or third == pushed)
+    i = next(k for k, rec in enumerate(L) if rec[1] == m0)
+    spans = {i: [i + len(pattern)]} if ok else {}
+    return {"form": "deref-operator-capture", "how": how, "op": op, "pattern": pattern, "listing": L, "spans": spans, "near": how != "bound" or off_shown != off or (third not in (None, pushed))}
+
+
 def strategy(tier):
-    return st.one_of(cases(), cases(), cases(), cases(), cases(), deref_capture_cases())
+    return st.one_of(cases(), cases(), cases(), cases(), cases(), deref_capture_cases(), deref_operator_capture_cases())
 
 
 def evaluate(case):
@@ -556,6 +610,13 @@ def evaluate(case):
             ev.tags.append("near-miss")
         ev.nontrivial = exp or near
         ev.sample = {"mut": case["mut"], "pattern": pattern, "stream": stream_sample(L), "expected_found": exp}
+        return ev
+    if case.get("form") == "deref-operator-capture":
+        spans = {int(k): set(v) for k, v in case["spans"].items()}
+        exp, _, _ = compare(ev, pattern, L, None, None, spans=spans)
+        ev.tags = ["kind=deref-operator-capture", f"how={case['how']}", f"dop={case['op']}", "expect=found" if exp else "expect=notfound"] + (["near-miss"] if case["near"] else [])
+        ev.nontrivial = True
+        ev.sample = {"pattern": pattern, "stream": stream_sample(L), "expected_found": exp}
         return ev
     mn_full, op_full = case.get("flags", [False, False])
     if case.get("shipped"):
